@@ -1,12 +1,12 @@
 (* C06 tie of the whole-file specification walker: what tools/props/c06walk.py evaluates on the reference-library files of the
    corpus.  One case = the complete bytes of one corpus file, transported as pieces (hex strings and runs of zero bytes).
    [walk6_obs] runs the STRICT walk (Spec.Walk.walk wstrict) and flattens the answer to a list of numbers:
-     accepted:  [ 1; superblock version; #objects; object* ]
+     accepted:  [ 1; superblock version; #deviation tags (the tie requires 0); #objects; object* ]
      rejected:  [ 0; reason code ]                        (Spec.Walk.walk_code; tools/props/c06walk.py REASONS)
      object = addr; kind; datatype class; datatype size; datatype bits; dataspace type; layout; #dims; dim*; |path|; path bytes;
               #attrs; (|name|; name bytes)*; #links; (link type; |name|; name bytes)*
-   The strict walk is the reference: by Props/C06Walk.v its acceptance implies that every tolerance accepts with the same tree and
-   no deviation tag. *)
+   The strict walk is the reference: by Props/C06Walk.v its acceptance implies that every tolerance accepts with the identical
+   result. *)
 From HV Require Import Base.Prelude Base.Outcome Base.Bytes Spec.Parse Spec.Walk.
 
 Inductive piece : Type := PH (s : string) | PZ (n : N).
@@ -21,7 +21,7 @@ Definition enc6_obj (o : obj_sum) : list N :=
 
 Definition walk6_obs (fuel : nat) (f : bytes) : list N :=
   match walk wstrict fuel f with
-  | Ok r => 1 :: wr_version r :: lenN (wr_tree r) :: concat (map enc6_obj (wr_tree r))
+  | Ok r => 1 :: wr_version r :: lenN (wr_tags r) :: lenN (wr_tree r) :: concat (map enc6_obj (wr_tree r))
   | _ => [0; walk_code wstrict fuel f]
   end.
 
